@@ -533,6 +533,8 @@ namespace cgi {
 			}
 
 			std::ostringstream ss;
+			// the size of a chunk is a protocol element: it must not follow the global locale
+			ss.imbue(std::locale::classic());
 			ss << std::hex << in.bytes_count() << "\r\n";
 			chunked_header_ = std::move(ss.str());
 			char const *trailer = "\r\n";
